@@ -208,9 +208,10 @@ class Edits(e2.System):
             enc = tuple(o.data for o in p)
         except Exception:  # noqa: BLE001
             enc = tuple(type(o).__name__ + repr(o.arg) for o in p)
-        ca = None if p._ast is None else digest(e1._canon_ast(p._ast, {}))
+        cached_ast = getattr(p, "_ast", None)
+        ca = None if cached_ast is None else digest(e1._canon_ast(cached_ast, {}))
         cp = None
-        if p._properties is not None:
+        if getattr(p, "_properties", None) is not None:
             pr = p._properties
             try:
                 cp = digest((tuple(e1._canon_ast(n, {}) for n in pr.imports), len(pr.calls), len(pr.non_setstate_calls),
